@@ -12,6 +12,12 @@ def main():
     try:
         cc = lambda args: subprocess.run(["gcc"] + args, check=True)
         cc(["-O1", "-g", "-fopenmp", "-fsanitize=thread", "-c", os.path.join(HERE, "selftest/omp_prog.c"), "-o", d + "/prog.o"])
+        sys.path.insert(0, HERE)
+        import build
+        redefs = []
+        for sname in build.MON_SEAMS:
+            if sname.startswith("pthread_"): redefs += ["--redefine-sym", "%s=m4sim_%s" % (sname, sname)]
+        subprocess.run(["objcopy"] + redefs + [d + "/prog.o"], check=True)   # the same seams the `mon` flavour of the library gets
         objs = [d + "/prog.o"]
         for f in ["selftest/omp_main.c", "core/sched.c", "core/heap.c", "core/die.c", "core/fs.c"]:
             o = d + "/" + os.path.basename(f)[:-2] + ".o"
